@@ -37,6 +37,7 @@ type caseT struct {
 	Annotations []bufx.Annotation    `json:"annotations,omitempty"`
 	Clean       map[string]bool      `json:"clean_per_category,omitempty"`
 	Changed     map[string][2]string `json:"changed_files_old_new,omitempty"`
+	ImageOrder  [][]string           `json:"image_file_order_old_new,omitempty"`
 }
 
 func changed(oldR, newR *c03.Rendered) map[string][2]string {
@@ -203,7 +204,7 @@ func run(r *evid.Run) {
 	r.Assume("the additive operators never reuse a number or name of the base (numbers >= 700, names containing 'added')")
 	r.Assume("rule handlers run independently of each other, so intermediate chain pairs in the quick tier run under use:[FILE,PACKAGE,WIRE_JSON,WIRE] only; the end-to-end pair of every chain runs under each category separately")
 
-	phases := map[string]bool{"cosmetic": true, "additive": true, "catalogue": true, "pairs": true}
+	phases := map[string]bool{"cosmetic": true, "additive": true, "manyfiles": true, "catalogue": true, "pairs": true}
 	onlyOps := map[string]bool{}
 	if v := os.Getenv("VERIF_C04_PHASES"); v != "" {
 		// debugging / mutant triage aid (run is then marked incomplete)
@@ -392,6 +393,11 @@ func run(r *evid.Run) {
 		})
 	}
 
+	// ---------------------------------------------------------------- (a) the same three kinds over modules of many files
+	if phases["manyfiles"] && len(onlyOps) == 0 && !r.Expired() {
+		x.runManyFiles(full, cats, unions)
+	}
+
 	// ---------------------------------------------------------------- (b) hierarchy over the C03 catalogue
 	process := func(instances []c03.Instance) {
 		if len(onlyOps) > 0 {
@@ -517,10 +523,11 @@ func run(r *evid.Run) {
 		}
 	}
 	r.Set("hierarchy_patterns_FILE_PACKAGE_WIREJSON_WIRE(c=clean,D=dirty)", patterns)
-	if r.Expired() || len(onlyOps) > 0 || len(phases) < 4 {
+	if r.Expired() || len(onlyOps) > 0 || len(phases) < 5 {
 		return
 	}
-	for _, k := range []string{"silent_pairs_identity", "silent_pairs_cosmetic", "silent_pairs_additive", "hierarchy_pairs_catalogue", "hierarchy_pairs_edit-pair",
+	for _, k := range []string{"silent_pairs_identity", "silent_pairs_cosmetic", "silent_pairs_additive",
+		"silent_pairs_identity-many-files", "silent_pairs_cosmetic-many-files", "silent_pairs_additive-many-files", "hierarchy_pairs_catalogue", "hierarchy_pairs_edit-pair",
 		"hierarchy_antecedent_true_FILE", "hierarchy_antecedent_true_PACKAGE", "hierarchy_antecedent_true_WIRE_JSON"} {
 		if x.n[k] == 0 {
 			r.Incomplete("clause never exercised: " + k)
